@@ -233,39 +233,39 @@ macro_rules! wt_laws {
         }
     };
 }
-// @h props=C03,C04,C10,C12:t,C19:t tier=quick family=M prof=AB mem=14 timeout=2400 stubs=ModelBRS,utils::stable_partition_of_2->fixed_array_reference(c17) role=wt.get.u8
-// @bound WaveletTree<u8, ModelBRS, false>: length 3, contents symbolic with s[2] = 255 (8 levels): get for every index of the machine range
+// @h props=C03,C04,C10,C12:t,C19:t tier=quick family=M prof=AB mem=5 timeout=2400 stubs=ModelBRS,utils::stable_partition_of_2->fixed_array_reference(c17) role=wt.get.u8
+// @bound WaveletTree<u8, ModelBRS, false>: length 3, contents symbolic with s[last] = 255 (8 levels): get for every index of the machine range
 // @funcs WaveletTree::new, WaveletTree::get, WaveletTree::get_unchecked, WaveletTree::len, WaveletTree::n_levels, utils::stable_partition_of_2, BitVectorMut::push
 wt_laws!(c03_get_u8_n3, u8, 3, 2, 8, 10, 0);
-// @h props=C03,C04,C10 tier=quick family=M prof=AB mem=14 timeout=2400 stubs=ModelBRS,utils::stable_partition_of_2->fixed_array_reference(c17) role=wt.rank.u8
-// @bound WaveletTree<u8, ModelBRS, false>: length 3 (s[0] = 255): rank for every symbol and position, checked and unchecked
+// @h props=C03,C04,C10 tier=quick family=M prof=AB mem=5 timeout=2400 stubs=ModelBRS,utils::stable_partition_of_2->fixed_array_reference(c17) role=wt.rank.u8
+// @bound WaveletTree<u8, ModelBRS, false>: length 3 (s[last] = 255): rank for every symbol and position, checked and unchecked
 // @funcs WaveletTree::new, WaveletTree::rank, WaveletTree::rank_unchecked
-wt_laws!(c03_rank_u8_n3, u8, 3, 0, 8, 10, 1);
-// @h props=C03,C04,C10 tier=quick family=M mem=14 timeout=2400 stubs=ModelBRS,utils::stable_partition_of_2->fixed_array_reference(c17) role=wt.select.u8
-// @bound WaveletTree<u8, ModelBRS, false>: length 3 (s[1] = 255): select for every symbol and every k, checked and unchecked
+wt_laws!(c03_rank_u8_n3, u8, 3, 2, 8, 10, 1);
+// @h props=C03,C04,C10 tier=quick family=M mem=5 timeout=2400 stubs=ModelBRS,utils::stable_partition_of_2->fixed_array_reference(c17) role=wt.select.u8
+// @bound WaveletTree<u8, ModelBRS, false>: length 3 (s[last] = 255): select for every symbol and every k, checked and unchecked
 // @funcs WaveletTree::new, WaveletTree::select, WaveletTree::select_unchecked
-wt_laws!(c03_select_u8_n3, u8, 3, 1, 8, 10, 2);
-// @h props=C03 tier=thorough family=M mem=14 timeout=3000 stubs=ModelBRS,utils::stable_partition_of_2->fixed_array_reference(c17) role=wt.get.u16
+wt_laws!(c03_select_u8_n3, u8, 3, 2, 8, 10, 2);
+// @h props=C03 tier=thorough family=M mem=5 timeout=3000 stubs=ModelBRS,utils::stable_partition_of_2->fixed_array_reference(c17) role=wt.get.u16
 // @bound WaveletTree<u16, ModelBRS, false>: length 3 (16 levels): get
 // @funcs WaveletTree::new, WaveletTree::get
-wt_laws!(c03_get_u16_n3, u16, 3, 0, 16, 18, 0);
-// @h props=C03 tier=thorough family=M mem=14 timeout=3000 stubs=ModelBRS,utils::stable_partition_of_2->fixed_array_reference(c17) role=wt.get.u32
+wt_laws!(c03_get_u16_n3, u16, 3, 2, 16, 18, 0);
+// @h props=C03 tier=thorough family=M mem=5 timeout=3000 stubs=ModelBRS,utils::stable_partition_of_2->fixed_array_reference(c17) role=wt.get.u32
 // @bound WaveletTree<u32, ModelBRS, false>: length 2 (32 levels): get
 // @funcs WaveletTree::new, WaveletTree::get
-wt_laws!(c03_get_u32_n2, u32, 2, 0, 32, 34, 0);
-// @h props=C03,C19:t tier=thorough family=M mem=14 timeout=3600 stubs=ModelBRS,utils::stable_partition_of_2->fixed_array_reference(c17) role=wt.get.u64
-// @bound WaveletTree<u64, ModelBRS, false>: length 2 (s[1] = u64::MAX, 64 levels): get - values that need more than 32 bits
+wt_laws!(c03_get_u32_n2, u32, 2, 1, 32, 34, 0);
+// @h props=C03,C19:t tier=thorough family=M mem=5 timeout=3600 stubs=ModelBRS,utils::stable_partition_of_2->fixed_array_reference(c17) role=wt.get.u64
+// @bound WaveletTree<u64, ModelBRS, false>: length 2 (s[last] = u64::MAX, 64 levels): get - values that need more than 32 bits
 // @funcs WaveletTree::new, WaveletTree::get
 wt_laws!(c03_get_u64_n2, u64, 2, 1, 64, 66, 0);
-// @h props=C03 tier=thorough family=M mem=14 timeout=3600 stubs=ModelBRS,utils::stable_partition_of_2->fixed_array_reference(c17) role=wt.rank.u64
+// @h props=C03 tier=thorough family=M mem=5 timeout=3600 stubs=ModelBRS,utils::stable_partition_of_2->fixed_array_reference(c17) role=wt.rank.u64
 // @bound WaveletTree<u64, ModelBRS, false>: length 2 (64 levels): rank
 // @funcs WaveletTree::new, WaveletTree::rank
-wt_laws!(c03_rank_u64_n2, u64, 2, 0, 64, 66, 1);
-// @h props=C03 tier=thorough family=M mem=14 timeout=3600 stubs=ModelBRS,utils::stable_partition_of_2->fixed_array_reference(c17) role=wt.select.u64
+wt_laws!(c03_rank_u64_n2, u64, 2, 1, 64, 66, 1);
+// @h props=C03 tier=thorough family=M mem=5 timeout=3600 stubs=ModelBRS,utils::stable_partition_of_2->fixed_array_reference(c17) role=wt.select.u64
 // @bound WaveletTree<u64, ModelBRS, false>: length 2 (64 levels): select
 // @funcs WaveletTree::new, WaveletTree::select
-wt_laws!(c03_select_u64_n2, u64, 2, 0, 64, 66, 2);
-// @h props=C03 tier=thorough family=M mem=14 timeout=3600 stubs=ModelBRS,utils::stable_partition_of_2->fixed_array_reference(c17) role=wt.get.u128
+wt_laws!(c03_select_u64_n2, u64, 2, 1, 64, 66, 2);
+// @h props=C03 tier=thorough family=M mem=5 timeout=3600 stubs=ModelBRS,utils::stable_partition_of_2->fixed_array_reference(c17) role=wt.get.u128
 // @bound WaveletTree<u128, ModelBRS, false>: length 1 (128 levels): get
 // @funcs WaveletTree::new, WaveletTree::get
 wt_laws!(c03_get_u128_n1, u128, 1, 0, 128, 130, 0);
@@ -317,24 +317,24 @@ macro_rules! wt_concrete {
         }
     };
 }
-// @h props=C03,C04 tier=quick family=M mem=14 timeout=1800 stubs=ModelBRS,utils::stable_partition_of_2->fixed_array_reference(c17) role=wt.concrete.sigma5
+// @h props=C03,C04 tier=quick family=M mem=5 timeout=1800 stubs=ModelBRS,utils::stable_partition_of_2->fixed_array_reference(c17) role=wt.concrete.sigma5
 // @bound concrete [1,0,2,4,5,3] (max 5: 3 levels), queries symbolic over the machine range: get, rank, select; symbols above max give None in rank AND select
 // @funcs WaveletTree::new, WaveletTree::get, WaveletTree::rank, WaveletTree::select
 wt_concrete!(c03_concrete_sigma5, u8, [1, 0, 2, 4, 5, 3], 6, 3, 10);
-// @h props=C03 tier=quick family=M mem=14 timeout=1800 stubs=ModelBRS,utils::stable_partition_of_2->fixed_array_reference(c17) role=wt.concrete.two_symbols
+// @h props=C03 tier=quick family=M mem=5 timeout=1800 stubs=ModelBRS,utils::stable_partition_of_2->fixed_array_reference(c17) role=wt.concrete.two_symbols
 // @bound concrete two-symbol sequence [0,1,1,0] (one level), queries symbolic
 // @funcs WaveletTree::new, WaveletTree::get, WaveletTree::rank, WaveletTree::select
 wt_concrete!(c03_concrete_two, u16, [0, 1, 1, 0], 4, 1, 10);
-// @h props=C03 tier=quick family=M mem=14 timeout=1800 stubs=ModelBRS,utils::stable_partition_of_2->fixed_array_reference(c17) role=wt.concrete.one_symbol
+// @h props=C03 tier=quick family=M mem=5 timeout=1800 stubs=ModelBRS,utils::stable_partition_of_2->fixed_array_reference(c17) role=wt.concrete.one_symbol
 // @bound concrete one-symbol sequence [0,0,0] (max 0), queries symbolic
 // @funcs WaveletTree::new, WaveletTree::get, WaveletTree::rank, WaveletTree::select
 wt_concrete!(c03_concrete_zeros, u32, [0, 0, 0], 3, 1, 10);
-// @h props=C03 tier=thorough family=M mem=14 timeout=1800 stubs=ModelBRS,utils::stable_partition_of_2->fixed_array_reference(c17) role=wt.concrete.holes
+// @h props=C03 tier=thorough family=M mem=5 timeout=1800 stubs=ModelBRS,utils::stable_partition_of_2->fixed_array_reference(c17) role=wt.concrete.holes
 // @bound concrete [6,2,6] (max 6, holes), queries symbolic
 // @funcs WaveletTree::new, WaveletTree::get, WaveletTree::rank, WaveletTree::select
 wt_concrete!(c03_concrete_holes, u64, [6, 2, 6], 3, 3, 10);
 
-// @h props=C03,C04 tier=quick family=E mem=14 timeout=1200 stubs=ModelBRS role=wt.empty
+// @h props=C03,C04 tier=quick family=E mem=5 timeout=1200 stubs=ModelBRS role=wt.empty
 // @bound empty WT (new on an empty slice) and Default WT over the model; empty and Default HWT-typed trees: every query, all arguments: None, no panic
 // @funcs WaveletTree::new, WaveletTree::default, WaveletTree::get, WaveletTree::rank, WaveletTree::select, WaveletTree::len
 #[kani::proof]
@@ -357,7 +357,7 @@ fn c03_empty_model() {
     core::mem::forget(t2);
 }
 
-// @h props=C03 tier=quick family=M mem=14 timeout=900 expect=fail stubs=ModelBRS role=wt.twin
+// @h props=C03 tier=quick family=M mem=5 timeout=900 expect=fail stubs=ModelBRS role=wt.twin
 // @bound deliberately false twin: claims get(0) is always the type maximum
 // @funcs WaveletTree::new, WaveletTree::get
 #[kani::proof]
@@ -374,10 +374,10 @@ fn c03_false_twin() {
 // ------------------------------------------------------------------------------------------ C19
 
 // @h props=C19,C03:t tier=quick family=M mem=18 timeout=2400 stubs=ModelBRS,utils::stable_partition_of_2->fixed_array_reference(c17) role=wt.paths.u8
-// @bound WaveletTree<u8, ModelBRS, false>: length 3 (s[2] = 255): new / From<Vec> / collect give equal values, Clone is equal, a sequence differing in one symbolic position gives an unequal value
+// @bound WaveletTree<u8, ModelBRS, false>: length 3 (s[last] = 255): new / From<Vec> / collect give equal values, Clone is equal, a sequence differing in one symbolic position gives an unequal value
 // @funcs WaveletTree::new, WaveletTree::from<Vec>, WaveletTree::from_iter, WaveletTree::clone, WaveletTree::eq
 #[kani::proof]
-#[kani::unwind(10)]
+#[kani::unwind(66)] // derived == on Vec<usize> is a memcmp over 8 levels x 8 bytes
 #[kani::stub(crate::utils::stable_partition_of_2, part2_stub)]
 fn c19_wt_paths_u8_n3() {
     let s = any_seq!(u8, 3, 2);
@@ -409,7 +409,7 @@ fn c19_wt_paths_u8_n3() {
 // @bound the same concrete numbers [1,0,2,4,5,3] carried as u8, u32 and u64 in the binary tree: get / rank / select agree for symbolic arguments
 // @funcs WaveletTree::new, WaveletTree::get, WaveletTree::rank, WaveletTree::select
 #[kani::proof]
-#[kani::unwind(10)]
+#[kani::unwind(26)]
 #[kani::stub(crate::utils::stable_partition_of_2, part2_stub)]
 fn c19_wt_widths() {
     let mut a: [u8; 6] = [1, 0, 2, 4, 5, 3];
@@ -428,6 +428,13 @@ fn c19_wt_widths() {
     assert!(tb.rank(sym as u32, i) == tc.rank(sym as u64, i));
     assert!(ta.select(sym, i) == tb.select(sym as u32, i));
     assert!(tb.select(sym as u32, i) == tc.select(sym as u64, i));
+    let mut d1: [u8; 3] = [1, 2, 3];
+    let mut d2: [u8; 3] = [4, 8, 12];
+    let td1 = Tree::<u8>::new(&mut d1[..]);
+    let td2 = Tree::<u8>::new(&mut d2[..]);
+    assert!(td1 != td2);
+    core::mem::forget(td1);
+    core::mem::forget(td2);
     kani::cover!(ta.select(sym, i).is_some(), "an existing occurrence");
     core::mem::forget(ta);
     core::mem::forget(tb);
